@@ -31,7 +31,7 @@ Proof. exact keeps_prefix. Qed.
 Theorem C04_cut_keeps_all : forall fsz local stream t chunks,
   len stream <= fsz - len local \/ stream = [] ->
   d_local (download_session (Some fsz) local true stream t chunks) = local ++ stream.
-Proof. intros. now apply no_excess_all_kept. Qed.
+Proof. exact cut_keeps_all. Qed.
 
 (* COMPLETE is sound: download, honest sender *)
 Theorem C04_complete_sound : forall src local ok stream t chunks,
